@@ -111,7 +111,7 @@ PROPS["C13"] = {
 
 PROPS["C16"] = {
     "level": "other",
-    "rules": [p_macro.dom_macro, p_macro.fld_input, p_macro.dec_macro, p_macro.fnc1],
+    "rules": [p_macro.dom_macro, p_macro.fld_input, p_macro.dec_macro, p_macro.fnc1, only(p_symbols.capacity_info, lambda k: k == "gate-on-stripped-data", "the capacity gate sees the compacted data")],
     "explanation": "Clause-level claim. Decided: (only-if) every macro-codeword push and the re-slice of the input are dominated by "
                    "the true edges of codewords.is_empty(), data.ends_with(RS EOT) and data.starts_with(the header paired with that "
                    "codeword); header/trailer/codeword constants equal the standard; header and trailer cannot overlap so the re-slice "
